@@ -6,16 +6,8 @@
 From Coq Require Import NArith ZArith List Bool.
 Import ListNotations.
 From Mds Require Export Mdiff.FormatModel.
-From Mds Require Import Gen.MdiffReadSpan Gen.MdiffReadSkel.
+From Mds Require Import Gen.MdiffReadSpan.
 Local Open Scope Z_scope.
-
-(* The case labels, command letters and operators of the readers' switches are regenerated from
-   reader.go on every run (Gen/MdiffReadSkel.v).  Operators travel as the codes 0..3, string
-   literals as the byte code of their letter; the statement skeletons and the remaining
-   conditions are pinned in Mdiff/FormatSkel.v. *)
-Definition op_of_code (z : Z) : op :=
-  if z =? 0 then Drop else if z =? 1 then Emit else if z =? 2 then Copy else Replace.
-Definition gen_op (f : Z -> Z -> Z -> Z -> Z) : op := op_of_code (f 0 1 2 3).
 
 Inductive rerr :=
 | EBlank        (* "unexpected blank line" *)
@@ -55,22 +47,16 @@ Definition parse_span (dflt : Z) (tag s : bytes) : option (Z * Z) :=
 
 Inductive ncmd := CmdA | CmdC | CmdD.
 
-Definition cmd_of_code (z : Z) : ncmd :=
-  if z =? 97 then CmdA else if z =? 99 then CmdC else CmdD.
-(* a command letter of reader.go, picked by a generated selector out of "a", "c", "d" *)
-Definition gen_letter (f : Z -> Z -> Z -> Z) : Z := f 97 99 100.
-
-(* the three strings.Cut attempts of readNormal, in source order (a, c, d), each with the command
-   it records *)
+(* the three strings.Cut attempts of readNormal, in order a, c, d *)
 Definition split_cmd (l : line) : option (bytes * ncmd * bytes) :=
-  match cut_byte (Z.to_N (gen_letter rn_cut0)) l with
-  | Some (x, y) => Some (x, cmd_of_code (gen_letter rn_cmd0), y)
+  match cut_byte 97 l with
+  | Some (x, y) => Some (x, CmdA, y)
   | None =>
-    match cut_byte (Z.to_N (gen_letter rn_cut1)) l with
-    | Some (x, y) => Some (x, cmd_of_code (gen_letter rn_cmd1), y)
+    match cut_byte 99 l with
+    | Some (x, y) => Some (x, CmdC, y)
     | None =>
-      match cut_byte (Z.to_N (gen_letter rn_cut2)) l with
-      | Some (x, y) => Some (x, cmd_of_code (gen_letter rn_cmd2), y)
+      match cut_byte 100 l with
+      | Some (x, y) => Some (x, CmdD, y)
       | None => None
       end
     end
@@ -136,18 +122,16 @@ Fixpoint read_normal_loop (fuel : nat) (ls : list line) (acc : list (chunk line)
             match read_normal_edit rest [] [] false with
             | RErr e => RErr e
             | ROk (xs, ys, rest') =>
-              (* switch cmd: the three cases in source order, each with the operator it sets *)
               let '(o, llo, rlo) :=
                 match cmd with
-                | CmdA => (gen_op rn_op0, wrap64 (read_normal_add_llo llo), rlo)
-                | CmdC => (gen_op rn_op1, llo, rlo)
-                | CmdD => (gen_op rn_op2, llo, wrap64 (read_normal_del_rlo rlo))
+                | CmdA => (Copy, wrap64 (read_normal_add_llo llo), rlo)
+                | CmdC => (Replace, llo, rlo)
+                | CmdD => (Drop, llo, wrap64 (read_normal_del_rlo rlo))
                 end in
-              let is_a := match cmd with CmdA => true | _ => false end in
-              let is_c := match cmd with CmdC => true | _ => false end in
-              let is_d := match cmd with CmdD => true | _ => false end in
-              if rn_add_mismatch (llen ys) (wrap64 (read_normal_want_add rlo rhi)) is_a is_c is_d then RErr ECount
-              else if rn_del_mismatch (llen xs) (wrap64 (read_normal_want_del llo lhi)) is_a is_c is_d then RErr ECount
+              let is_ac := match cmd with CmdD => false | _ => true end in
+              let is_cd := match cmd with CmdA => false | _ => true end in
+              if negb (llen ys =? wrap64 (read_normal_want_add rlo rhi)) && is_ac then RErr ECount
+              else if negb (llen xs =? wrap64 (read_normal_want_del llo lhi)) && is_cd then RErr ECount
               else read_normal_loop f rest'
                      (acc ++ [mkChunk [mkEdit o xs ys]
                                 (read_normal_chunk_lstart llo lhi rlo rhi) (read_normal_chunk_lend llo lhi rlo rhi)
@@ -197,12 +181,10 @@ Fixpoint read_uchunk_body (ls : list line) (es : list (edit line))
     match l with
     | [] => (BodyBlank, es, rest)
     | c :: t =>
-      (* switch line[0]: the case labels in source order, each with the operator it hands to add;
-         the text is line[1:] *)
-      if N.eqb c (Z.to_N ru_case_ctx) then read_uchunk_body rest (add_text (gen_op ru_op_ctx) t es)
-      else if N.eqb c (Z.to_N ru_case_del) then read_uchunk_body rest (add_text (gen_op ru_op_del) t es)
-      else if N.eqb c (Z.to_N ru_case_ins) then read_uchunk_body rest (add_text (gen_op ru_op_ins) t es)
-      else if N.eqb c (Z.to_N ru_case_next) then (BodyNext, es, l :: rest)
+      if N.eqb c 32 then read_uchunk_body rest (add_text Emit t es)
+      else if N.eqb c 45 then read_uchunk_body rest (add_text Drop t es)
+      else if N.eqb c 43 then read_uchunk_body rest (add_text Copy t es)
+      else if N.eqb c 64 then (BodyNext, es, l :: rest)
       else (BodyUnexpected, es, l :: rest)
     end
   end.
